@@ -229,12 +229,81 @@ def r206(ctx, fx):
         ctx.fail_closed(rid, "fewer than 3 select arms found (%d)" % n)
 
 
+UNTIMED_WAITS = ("Receiver::recv", "Receiver<T>::recv", "Condvar::wait", "Barrier::wait", "Select::select", "Select::ready", "TcpListener::accept", "JoinHandle::join")
+
+
+def r207(ctx, fx):
+    rid = ctx.rule("R20.7", "a thread that its owner joins can be woken by its owner: for every type that both spawns a thread and joins it (spawn and "
+                   "JoinHandle::join in methods of the same type), the body of the spawned closure itself — what it runs between looks at the flag its owner "
+                   "sets — contains no wait without a timeout (channel `recv`, `Condvar::wait`, `select`, `accept`, `join`) unless the joining method, on "
+                   "every path to the join, sends on a channel of the same message type. A thread parked in `recv()` on a channel whose sender the joiner "
+                   "itself keeps never sees the flag; the join, and with it shutdown, never returns")
+    by_owner = {}
+    for f in sorted(fx.all_fns("mos"), key=lambda f: f.path):
+        if "::tests::" in f.path or "::testing" in f.path or not f.blocks:
+            continue
+        owner_fn = f
+        while owner_fn.kind == "closure" and owner_fn.d.get("parent") in fx.fns:
+            owner_fn = fx.fns[owner_fn.d["parent"]]
+        ty = owner_fn.d.get("impl_self")
+        if not ty:
+            continue
+        for bi, t in lib.calls(f):
+            p = lib.norm(lib.callee(t)[0] or "")
+            if p.endswith("JoinHandle::join"):
+                by_owner.setdefault(ty, {"spawn": [], "join": []})["join"].append((f, bi, t))
+            elif (p.startswith("std::thread") and p.endswith("::spawn")) or p.endswith("Builder::spawn"):
+                by_owner.setdefault(ty, {"spawn": [], "join": []})["spawn"].append((f, bi, t))
+    pairs = 0
+    for ty, d in sorted(by_owner.items()):
+        if not d["spawn"] or not d["join"]:
+            continue
+        pairs += 1
+        short = ty.rsplit("::", 1)[-1]
+        for g, bi, t in d["spawn"]:
+            aty = g.locals[lib.op_local(t["args"][0])]["ty"] if t.get("args") and lib.op_local(t["args"][0]) is not None else ""
+            clos = [c for c in fx.fns.values() if c.kind == "closure" and c.path.startswith(g.path + "::{closure") and ("@%s:" % c.where) in aty.replace(": ", ":")]
+            key = "%s|joined-thread" % short
+            waits = []
+            for c in clos:
+                for b in lib.owned(fx, c):
+                    for bj, t2 in lib.calls(b):
+                        p2 = lib.norm(lib.callee(t2)[0] or "")
+                        if any(p2.endswith(w) or (w.split("::")[0] in p2 and p2.endswith("::" + w.split("::")[-1])) for w in UNTIMED_WAITS) and "recv_timeout" not in p2 \
+                                and "try_recv" not in p2:
+                            full = lib.callee(t2)[1].get("full", "")
+                            waits.append((p2, t2.get("line"), full, b))
+            ctx.inst(rid, key, sample={"type": ty, "spawned_in": g.path, "joined_in": sorted({j[0].path for j in d["join"]}), "closures": [c.path for c in clos],
+                                       "untimed_waits_in_the_thread_body": [w[0] for w in waits]})
+            if not clos:
+                ctx.fail_closed(rid, "the closure spawned in %s was not identified" % g.path)
+                continue
+            for p2, line, full, b in waits:
+                # does every joiner wake it?  a send / try_send on a Sender (of any channel flavour) on every path to the join
+                woken = True
+                for jf, jb, jt in d["join"]:
+                    sends = [bk for bk, t3 in lib.calls(jf) if lib.norm(lib.callee(t3)[0] or "").endswith(("Sender::send", "Sender::try_send", "Sender<T>::send",
+                                                                                                             "Sender<T>::try_send", "SyncSender::send"))]
+                    if not sends or not lib.must_pass(jf, sends, jb):
+                        woken = False
+                if not woken:
+                    ctx.finding(rid, "%s|%s" % (key, p2.rsplit("::", 2)[-2] + "::" + p2.rsplit("::", 1)[-1]),
+                                "the thread spawned in %s waits in %s without a timeout (line %s) and %s joins it without waking it: when the thread sits in that wait "
+                                "the join never returns — `disconnect` is never answered and a later `shutdown` hangs behind it" % (
+                                    g.path.rsplit("::", 2)[-2] + "::" + g.path.rsplit("::", 1)[-1], p2.rsplit("::", 2)[-2] + "::" + p2.rsplit("::", 1)[-1], line,
+                                    " / ".join(sorted({j[0].path.rsplit("::", 2)[-2] + "::" + j[0].path.rsplit("::", 1)[-1] for j in d["join"]}))),
+                                "%s:%s" % (b.file, line))
+    if pairs < 2:
+        ctx.fail_closed(rid, "fewer than 2 types that spawn and join a thread found (%d; DebugServer and Machine were counted)" % pairs)
+
+
 def run(ctx):
     fx = ctx.facts
     cg = lib.CallGraph(fx)
     r206(ctx, fx)
     r204(ctx, fx, cg)
     r205(ctx, fx)
+    r207(ctx, fx)
     r201(ctx, fx, cg)
     r202(ctx, fx, cg)
     r203(ctx, fx, cg)
